@@ -353,6 +353,9 @@ pub enum ReadyScript {
     Gate(usize),
     /// Ready(Err(class))
     Fail(u8),
+    /// Ready(Err(class)) while another call of this probe's group is in flight, Ready(Ok) otherwise
+    /// (a one-slot backend: clones made while the slot is taken cannot become ready)
+    FailWhileBusy(u8),
 }
 
 pub struct Probe {
@@ -467,6 +470,15 @@ impl tower::Service<Req> for Probe {
             ReadyScript::Fail(c) => {
                 let serial = self.w.next_serial();
                 (Poll::Ready(Err(PErr { serial, req_id: u64::MAX, class: c })), 2)
+            }
+            ReadyScript::FailWhileBusy(c) => {
+                let busy = *lock(&self.w.st).inflight.get(&self.group).unwrap_or(&0) > 0;
+                if busy {
+                    let serial = self.w.next_serial();
+                    (Poll::Ready(Err(PErr { serial, req_id: u64::MAX, class: c })), 2)
+                } else {
+                    (Poll::Ready(Ok(())), 0)
+                }
             }
         };
         if code == 0 {
